@@ -5,7 +5,7 @@ containers and leaves through the public API (`TaffyTree::compute_layout_with_me
 cfg(taffy_verif) hook), once or twice in a row, and prints every node's unrounded layout after every pass as bit patterns;
 `Model/TaffyEngineRun.run_case` decodes the same case, runs compute_root_layout (Model/TaffyRoot.v) + `Engine.memo` with the exact-key
 caches over `taffy_algo taffy_dispatch block_pre abs_child_block taffy_leaf` (Model/TaffyEngine.v: the engine
-C05_taffy_engine_hidden_invisible, C06_taffy_engine_instance and C01_taffy_engine_* are about) over the bit-exact F32 instance and must
+C05_taffy_engine_hidden_invisible, C06_taffy_engine_instance_partial and C01_taffy_engine_* are about) over the bit-exact F32 instance and must
 reproduce all 21 integers of all nodes after every pass.  The harness also lays every tree out with the REAL cache key and reports how
 many trees differ: that is the recorded lossy-cache-key finding (known_findings.json, C01/C17/C10), classified, never an alarm here.
 
